@@ -29,19 +29,24 @@ from gpmc.refs import structured as ST
 from gpmc.util import Fails, F64
 
 PROPERTY = "C09"
-RULE = ("cells = kernel formulas {Multitask rank 0..t x t x n1,n2 ; Index rank 0..t ; LCM 1..3 terms x ranks ; GridKernel sizes (1-d, 2-d, ragged) x "
-        "use_toeplitz x train/eval ; GridInterpolationKernel grid x d x ARD/isotropic x Scale inside/outside x toeplitz x bounds given/auto ; "
-        "InducingPointKernel n x d x M x train/eval x sgpr_diagonal_correction ; SGPR objective ; RFF n x d x D x ARD} + strategies "
-        "{KISS-GP (+WISKI fantasies), SGPR, RFF} x data lattice n{4,7} x d{1,2} x m{1,3} x grid/inducing/feature counts x settings "
-        "{CG, fast_pred_var, fast_pred_samples, detach_test_caches off, sgpr_diagonal_correction off, use_toeplitz off} (quick: all "
-        "combinations within Hamming distance 2 of the defaults; thorough: all) + interpolation weights on every node / every cell of 1-d and "
-        "2-d grids + refinement chains; a fresh model per cell; distinct = distinct (cell features, outcome signature)")
+RULE = ("cells = kernel formulas {Multitask rank 0..t x t x n1,n2 ; Index rank 0..t ; LCM 1..3 terms x ranks ; GridKernel sizes (1-d, 2-d, 3-d, ragged) "
+        "x use_toeplitz x base kernel x train/eval ; GridInterpolationKernel grid x d x ARD/isotropic x Scale inside/outside x toeplitz x bounds "
+        "given (same / different per dimension) / automatic x grid dtype ; InducingPointKernel n x d x M x train/eval x sgpr_diagonal_correction ; "
+        "SGPR objective (+ gradient w.r.t. inducing points) ; RFF n x d x D x ARD} + strategies {KISS-GP (+ WISKI fantasies q=1, q=2, chained), SGPR, "
+        "RFF} x data lattice n{4,7} x d{1,2} x m{1,3} x grid / inducing / feature counts x settings {CG, fast_pred_var, fast_pred_samples, "
+        "detach_test_caches off, sgpr_diagonal_correction off, use_toeplitz off} (quick: all combinations within Hamming distance 2 of the defaults; "
+        "thorough: all), every prediction once with autograd enabled and once under no_grad, each on a FRESH model, first and second call; KISS-GP "
+        "with automatic grid bounds x test points inside / outside the training range; + interpolation weights at every node and at offsets "
+        "{1/4,1/2,3/4} of every cell of 1-d / 2-d (thorough: 3-d) grids + refinement chains g = 8,16,32,64; distinct = distinct (cell features, "
+        "outcome signature)")
 ASSUMPTIONS = [
-    "base kernels (RBF / Matern, ScaleKernel) are trusted here (C05 decides them); the references evaluate them in closed form on explicit points",
+    "base kernels (RBF, Matern-3/2, ScaleKernel) are trusted here (C05 decides them); the references evaluate their closed forms on explicit points",
     "SGPR oracle = the SGPR predictive equations written out densely: mean = Q*x (Qxx + D + s2 I)^-1 (y - m), cov = K** - Q*x (Qxx + D + s2 I)^-1 "
-    "Qx* with the EXACT base kernel in the test-test block (Titsias 2009 eq. 6 / the comments of SGPRPredictionStrategy); D = 0 with "
-    "sgpr_diagonal_correction off, D = diag(Kxx - Qxx) (the documented eval-mode variance correction of the training block) when on",
-    "KISS-GP / RFF oracle = dense conditional on kernel(X_all).to_dense() of a twin model built from the same seed under default settings",
+    "Qx* with the EXACT base kernel in the test-test block (Titsias 2009 eq. 6 / the comments of SGPRPredictionStrategy; NOT the dense conditional "
+    "on kernel(X_all), whose test-test block would be Q** + correction); D = 0 with sgpr_diagonal_correction off (then also compared with Titsias' "
+    "eq. 6 literally), D = diag(Kxx - Qxx) (the documented eval-mode variance correction of the training block) when on",
+    "KISS-GP / RFF oracle = dense conditional on kernel(X_all).to_dense() of a twin model built from the same values (taken under the cell's "
+    "use_toeplitz setting, because the Toeplitz and the dense K_uu differ at the rounding level of the float32 grid)",
     "CG cells run with max_cholesky_size(0), (eval_)cg_tolerance 1e-12, max_cg_iterations 500 and are compared at 1e-4: linear_operator's "
     "linear_cg stops updating a column once p^T A p < eps = 1e-10 whatever the requested tolerance (measured residual 8e-6 on a 7 x 7 system), "
     "so the 1e-6 of the design is not attainable; direct paths are compared at 1e-9",
@@ -49,9 +54,11 @@ ASSUMPTIONS = [
     "psd_safe_cholesky) are compared at 1e-5 (fast_pred_samples in KISS-GP) resp. 1e-6 (WISKI fantasy caches)",
     "GridInterpolationKernel creates its grid in float32 whatever the default dtype; with use_toeplitz on, the as-constructed grid is equispaced "
     "only to float32 rounding, so those kernel-formula cells are compared at 2e-6 (cells with a float64 grid via update_grid at 1e-9)",
+    "KISS-GP fantasies are made under torch.no_grad() (DESIGN section 5 row 10); InducingPointKernel models are never reused across settings (row 11)",
     "boundary cells of the interpolation grid: only the snapping read from the code comments (weight 1 on a nearest node) is demanded",
     "'converges as the grid is refined' is a limit and is NOT decided: only error(g=64) < error(g=8) and error(g=64) < 1e-3 on a fixed test set",
     "fast_pred_samples: the returned distribution (mean, covariance) must be unchanged; sample statistics are not examined",
+    "with automatic grid bounds the oracle is the dense conditional on ONE kernel(X_all) matrix (one grid fitted to train and test points together)",
 ]
 
 TOL = (1e-9, 1e-9)
